@@ -8,7 +8,7 @@ one() {
   d=$1; id=$(basename $d); P=${id%-*}
   WT=/tmp/seedall-wt-$id
   git -C /repo worktree add -q --detach $WT HEAD 2>/dev/null || { echo "$id worktree-failed"; return; }
-  if ! git -C $WT apply --check $d/patch.diff 2>/dev/null; then echo "$id stale"; git -C /repo worktree remove --force $WT; return; fi
+  if ! git -C $WT apply --check /verif/$d/patch.diff 2>/dev/null && ! git -C $WT apply --3way --check /verif/$d/patch.diff 2>/dev/null; then echo "$id stale"; git -C /repo worktree remove --force $WT; return; fi
   git -C /repo worktree remove --force $WT
   out=$(bash lib/seedrun.sh $P $d/patch.diff quick 2>&1)
   if echo "$out" | grep -q "^VIOLATION.*no-failing-input-found"; then echo "$id caught-no-input"
